@@ -11,7 +11,15 @@ pub struct C04;
 
 const STEXT: [char; 8] = [' ', 'a', 'é', 'я', '一', '°', '-', '|'];
 
+thread_local! {
+    /// in the scopes made of plain words every letter and digit is a label
+    static ALNUM_LABELS: std::cell::Cell<bool> = std::cell::Cell::new(false);
+}
+
 fn is_label(c: char) -> bool {
+    if ALNUM_LABELS.with(|a| a.get()) && c.is_alphanumeric() {
+        return true;
+    }
     matches!(c, 'a' | 'b' | 'é' | 'я' | '一' | '二' | 'z' | '1' | '°' | '&' | '\u{301}' | '\u{200d}' | '\u{d7ff}' | '\u{e000}' | '\u{fffd}') || c as u32 >= 0x10000
 }
 
@@ -135,6 +143,15 @@ impl Prop for C04 {
                 }
             })
         }));
+        v.push(Scope::new("legend-words", "the words '# Legend:' (and near misses) inside ordinary text: followed on the same line by words, in the middle of a sentence, on a line of its own followed by lines that are not legend entries starting with a letter-free line; every letter and digit must still be shown", |f| {
+            for d in [
+                "ab # Legend: see the notes", "# Legend: none here", "note\n# Legend: table 1\nab cd", "see # Legend: and\nthe rest", "ab\n# Legend:cd", "a1 #Legend: b2", "ab # Legend",
+                "# Legend: a = {fill:red}", "é一 # Legend: zz",
+            ] {
+                f(Case::s(d));
+                f(Case::s(format!("+--+\n|  |\n+--+\n{}", d)));
+            }
+        }));
         v.push(Scope::new("two-text-rows", "all pairs of rows over {a,b,space} up to length 4, directly above each other (labels of adjacent rows must not be joined)", |f| {
             let mut rows: Vec<String> = vec![];
             enumr::strings_upto(&['a', 'b', ' '], 4, &mut |s| rows.push(s.iter().collect()));
@@ -232,6 +249,12 @@ impl Prop for C04 {
             None => return,
         };
         cx.compared();
+        if scope == "legend-words" {
+            ALNUM_LABELS.with(|a| a.set(true));
+            check_texts(cx, &case.s, &d, false);
+            ALNUM_LABELS.with(|a| a.set(false));
+            return;
+        }
         if d.count(Kind::Text) > 0 {
             let lens: Vec<usize> = d.of(Kind::Text).map(|t| t.text.chars().count()).collect();
             cx.outcome(&lens);
